@@ -48,6 +48,8 @@ class Gen:
         self.eavesdrop = eavesdrop
         self.rounds = []
         self.tok = 0
+        self.monitors = set()
+        self.speak = 0.08
 
     # ---- pieces
     def connect_ops(self, s, sub=True):
@@ -200,6 +202,13 @@ class Gen:
             return {'k': 'close'}
         if k == 'hello':
             return {'k': 'hello'}
+        if k == 'monitor':
+            n = rng.choice([0, 0, 1, 2])
+            old = self.odd_rules
+            self.odd_rules = 0.05
+            rules = [self.rule() for _ in range(n)]
+            self.odd_rules = old
+            return {'k': 'monitor', 'rules': rules, 'flags': 0 if rng.random() < 0.95 else 1}
         if k == 'big':
             return {'k': 'big', 'n': self.cfg.get('maxMsgSize', 70000) + rng.choice([1, 64, 5000])}
         sig, body = self.body()
@@ -291,6 +300,8 @@ class Gen:
                 if s not in self.connected:
                     ops[str(s)] = self.connect_ops(s)
                     continue
+                if s in self.monitors and rng.random() > self.speak:
+                    continue          # monitors stay silent most of the time
                 n = rng.choice([1, 1, 2]) if rng.random() > burst else rng.randint(3, 5 if k == 1 else 4)
                 lst = []
                 if s in self.pending_hello and rng.random() < 0.5:
@@ -299,7 +310,11 @@ class Gen:
                 for _j in range(n):
                     o = self.op(s)
                     lst.append(o)
-                    if o['k'] == 'close':
+                    if o['k'] == 'monitor':
+                        self.monitors.add(s)
+                        break
+                    if o['k'] == 'close' or s in self.monitors:
+                        self.monitors.discard(s)
                         del self.connected[s]
                         self.rulesof[s] = []
                         self.calls = [c for c in self.calls if c[0] != s]
